@@ -6,6 +6,7 @@ pub mod c07;
 pub mod c08;
 pub mod explore;
 pub mod honest;
+pub mod preproc;
 
 use crate::framework::Check;
 
@@ -16,9 +17,12 @@ pub fn all() -> Vec<Box<dyn Check>> {
         Box::new(c03::C03),
         Box::new(c04::C04),
         Box::new(explore::C05),
+        Box::new(preproc::C06),
         Box::new(c07::C07),
         Box::new(c08::C08),
         Box::new(explore::C09),
+        Box::new(preproc::C10),
+        Box::new(preproc::C11),
         Box::new(honest::C12),
         Box::new(explore::C18),
         Box::new(explore::C19),
